@@ -1,4 +1,6 @@
 """C03 - every terminal report becomes the right event; the input loop survives any input."""
+import vselftest
+from checks import selfmut
 import json
 
 
@@ -31,6 +33,12 @@ def main(c):
         c.cov["prefix_handoff_model_wedges_as_expected"] = not ok
     td = c.drive(drv, "c03", replay=c.replay)
     rejects, _ = c.validate_traces(specs, "Reports_Trace.tla", "Reports_Trace.cfg", td)
+    if not c.replay:
+        c.cov["binding_selftest"] = vselftest.run(c, specs, "Reports_Trace.tla", "Reports_Trace.cfg", td, {r["scn"] for r in rejects}, [
+            ("delivered event missing", selfmut.event_dropped),
+            ("mouse event one column off", selfmut.mouse_moved),
+            ("input loop stalled", selfmut.loop_stalled),
+        ])
     idx = c.load_index(td)
     c.count_distinct(idx, nontrivial=lambda s: True)
     for k in ("stream", "robust", "query"):
